@@ -213,12 +213,12 @@ GRAMMAR_TEXTS = ['speed "over ground"', 'brightness of the 5" display', '"quoted
 GRAMMAR_UNITS = {"all": ["km / h", "m/s^2", "[V]", "x=1", "#/min", "100 %s", "a;b"],
                  "dbc": ["a,b", "a < b & c", "(1/min)"], "json": ["a,b", "a < b & c", 'in "Hg"', "a\\b"], "kcd": ["a,b", "a < b & c", 'in "Hg"', "a\\b"],
                  "arxml": ["a,b", "a < b & c", 'in "Hg"', "a\\b"], "sym": ["a,b", "a < b & c", "/f:2", "-m"], "dbf": []}
-# SYM: an enum text with '=' or '//' in it is cut by the unchanged reader (reported, kept out of the stream); DBF and SYM have no way
-# to write a quote inside a quoted text
+# (SYM: an enum text with '=' or '//' in it used to be cut by the reader: repaired, known_findings.json C15-sym-enum-text-with-equals and
+# C15-sym-double-slash-in-quotes); DBF and SYM have no way to write a quote inside a quoted text
 GRAMMAR_VALUES = {"all": ["a,b", "driver's door", "x /u:V -m", "[Frame9]", "a;b", "{SEND}", "#hash", "two  blanks"],
                   "dbc": ["x=1", "see // note", 'said "no"'], "json": ["x=1", "see // note", 'said "no"', "a < b & c"],
                   "kcd": ["x=1", "see // note", 'said "no"', "a < b & c"], "arxml": ["x=1", "see // note", 'said "no"', "a < b & c"],
-                  "sym": [], "dbf": ["x=1", "see // note"]}
+                  "sym": ["x=1", "see // note"], "dbf": ["x=1", "see // note"]}
 
 
 def first_line(text, new):
